@@ -341,15 +341,21 @@ def _clamp_defs(fn, twice, singles):
                     continue
                 v = st.targets[0].id
                 nxt = blk[i + 1]
+                test_ = nxt.test if isinstance(nxt, ast.If) else None
+                negated = isinstance(test_, ast.UnaryOp) and isinstance(test_.op, ast.Not)          # `if not v > b: v = b`
+                if negated:
+                    test_ = test_.operand
                 if not (isinstance(nxt, ast.If) and not nxt.orelse and len(nxt.body) == 1 and isinstance(nxt.body[0], ast.Assign)
                         and len(nxt.body[0].targets) == 1 and isinstance(nxt.body[0].targets[0], ast.Name) and nxt.body[0].targets[0].id == v
-                        and isinstance(nxt.test, ast.Compare) and len(nxt.test.ops) == 1):
+                        and isinstance(test_, ast.Compare) and len(test_.ops) == 1):
                     continue
                 ndefs = sum(1 for x in ast.walk(fn) if isinstance(x, ast.Name) and x.id == v and isinstance(x.ctx, ast.Store))
                 if ndefs != 2 or v not in twice:
                     continue
                 e2 = nxt.body[0].value
-                l, r, op = nxt.test.left, nxt.test.comparators[0], nxt.test.ops[0]
+                l, r, op = test_.left, test_.comparators[0], test_.ops[0]
+                if negated:
+                    op = {ast.Lt: ast.GtE, ast.LtE: ast.Gt, ast.Gt: ast.LtE, ast.GtE: ast.Lt}.get(type(op), type(None))()
                 t2 = ast.unparse(e2)
                 kind = None
                 if isinstance(l, ast.Name) and l.id == v and ast.unparse(r) == t2:
@@ -520,7 +526,7 @@ def inline_accessors(P, cls, e, depth=0):
     return T().visit(_copy.deepcopy(e))
 
 
-def inline_class_factories(P, e):
+def inline_class_factories(P, e, owner=None):
     """copy of e in which `K.make(a, b)` -- K a class of the package, make a classmethod whose body is a straight-line computation -- is replaced by
     what it returns with cls := K and the parameters := the (call-free) arguments: `_WorkOrder.for_target(t, g, i)` is `_WorkOrder(t, g, ...)`"""
     import copy as _copy
@@ -529,20 +535,62 @@ def inline_class_factories(P, e):
         def visit_Call(self, n):
             self.generic_visit(n)
             f = n.func
-            if not (isinstance(f, ast.Attribute) and isinstance(f.value, ast.Name) and P.has_cls(f.value.id)) or n.keywords:
+            if not (isinstance(f, ast.Attribute) and isinstance(f.value, ast.Name)) or n.keywords:
                 return n
-            k = P.cls(f.value.id)
+            if P.has_cls(f.value.id):
+                k = P.cls(f.value.id)
+            elif owner is not None and f.value.id in ('self', 'cls'):
+                k = owner            # a static / class method of the owner called through self (`self._new_waiting_request(request, callback)`)
+            else:
+                return n
             hit = P.lookup(k, f.attr)
             if not hit or hit[1] != 'method':
                 return n
             fn = hit[2]
-            if not any(isinstance(d, ast.Name) and d.id == 'classmethod' for d in fn.decorator_list):
+            deco = [d.id for d in fn.decorator_list if isinstance(d, ast.Name)]
+            if deco not in (['classmethod'], ['staticmethod']):
                 return n
             ret = simple_return(fn)
             params = [a.arg for a in fn.args.args]
-            if ret is None or not params or len(params) - 1 != len(n.args) or any(isinstance(x, ast.Call) for a in n.args for x in ast.walk(a)):
+            skip = 1 if deco == ['classmethod'] else 0
+            if ret is None or len(params) - skip != len(n.args) or any(isinstance(x, ast.Call) for a in n.args for x in ast.walk(a)):
                 return n
-            env = dict(zip(params[1:], n.args))
-            env[params[0]] = ast.Name(id=k.name, ctx=ast.Load())
+            env = dict(zip(params[skip:], n.args))
+            if skip:
+                env[params[0]] = ast.Name(id=k.name, ctx=ast.Load())
             return subst(ret, env)
     return T().visit(_copy.deepcopy(e))
+
+
+def splice_self_statement_calls(P, cls, fn):
+    """shallow copy of fn in which a statement `self.h(a, ...)` -- h a private method of cls with a straight-line body of assignments and
+    expression statements, called with call-free arguments -- is replaced by that body with the parameters substituted (one level):
+    `self._budget__adjust_limit(value)` reads as the store it performs"""
+    import copy as _copy
+    out = _copy.copy(fn)
+    body, changed = [], False
+    for st in fn.body:
+        c = st.value if isinstance(st, ast.Expr) and isinstance(st.value, ast.Call) else None
+        hit = None
+        if c is not None and isinstance(c.func, ast.Attribute) and isinstance(c.func.value, ast.Name) and c.func.value.id == 'self' and not c.keywords \
+                and c.func.attr.startswith('_') and not any(isinstance(x, ast.Call) for a in c.args for x in ast.walk(a)):
+            hit = P.lookup(cls, c.func.attr)
+        if hit and hit[1] == 'method' and not hit[2].decorator_list and not hit[2].args.vararg and not hit[2].args.kwarg and not hit[2].args.defaults:
+            fd = hit[2]
+            hb = [x for x in fd.body if not (isinstance(x, ast.Expr) and isinstance(x.value, ast.Constant))]
+            ps = [a.arg for a in fd.args.args]
+            stored = {x.id for b in hb for x in ast.walk(b) if isinstance(x, ast.Name) and isinstance(x.ctx, ast.Store)}
+            if ps and ps[0] == 'self' and len(ps) - 1 == len(c.args) and all(isinstance(b, (ast.Assign, ast.AugAssign, ast.Expr)) for b in hb) and not stored:
+                env = dict(zip(ps[1:], c.args))
+                for b in hb:
+                    nb = subst(b, env) if env else _copy.deepcopy(b)
+                    for x in ast.walk(nb):
+                        ast.copy_location(x, st)
+                    body.append(ast.fix_missing_locations(nb))
+                changed = True
+                continue
+        body.append(st)
+    if not changed:
+        return fn
+    out.body = body
+    return out
